@@ -271,6 +271,19 @@ def body_region_change(env):
         else:
             new = SR.sym_unrodded(env, nk[0], tag='new_', fields=False)
         Tmix = old.avg_coolant_temp
+        if kind[0] == 'rodded':
+            # the mixed mean is the mass-flow weighted mean of all interior and bypass cells
+            sc_o = old.subchannel
+            nso = sc_o.n_sc['coolant']['total']
+            tot = _sum(old.sc_mfr[i] * old.temp['coolant_int'][i] for i in range(nso))
+            ndo = sc_o.n_sc['bypass']['total']
+            for bi in range(old.n_bypass):
+                st = nso + ndo + 2 * bi * ndo
+                for c in range(ndo):
+                    a = old.bypass_params['area'][bi, sc_o.type[st + c] - 5]
+                    tot = tot + old.byp_flow_rate[bi] * a / old.bypass_params['total area'][bi] * old.temp['coolant_byp'][bi, c]
+            env.eq('mixed mean of the old region = mass-flow weighted mean of all its coolant cells',
+                   Tmix * old.total_flow_rate, tot, tol=1e-9, key='mixed_mean_not_flow_weighted')
         new._activate_base(old)
         env.eq('mixed-mean coolant temperature carried over unchanged', new.avg_coolant_temp, Tmix, tol=1e-9)
         for i in range(len(new.temp['coolant_int'])):
